@@ -695,6 +695,17 @@ pub fn longrun(args: &[String]) -> i32 {
   // --threads T > 1: every block of 4096 queries is dealt round robin to T threads of one simulated
   // run under the random-walk scheduler (the long history and concurrency at the same time)
   let nthreads = (arg_u64(args, "--threads", 1) as usize).max(1).min(16);
+  // --refusals NUM/DEN of the queries are requests built to be refused (all classes the explore
+  // generator injects: before any lock, outside the locks, inside each of the three critical
+  // sections); the default history has 1/24 invalid tuples. A refusal-heavy history is its own
+  // query list: the driver compares the processes that were given the same --refusals.
+  let (ref_num, ref_den) = match arg(args, "--refusals") {
+    Some(t) => {
+      let mut it = t.split('/');
+      (it.next().and_then(|x| x.parse::<u64>().ok()).unwrap_or(0), it.next().and_then(|x| x.parse::<u64>().ok()).unwrap_or(1).max(1))
+    }
+    None => (0, 1),
+  };
   let t0 = Instant::now();
   let hash_seed = mix(mix(seed, 0x6c6f6e67), index) | 1;
   tyme4rs::tyme::verif::set_hash_seed(hash_seed);
@@ -702,7 +713,7 @@ pub fn longrun(args: &[String]) -> i32 {
   reset_library();
   let leap = Leap::build();
   // the query list is a function of the seed only
-  let mut rng = Rng::new(mix(seed, 0x6c6f6e6772756e));
+  let mut rng = Rng::new(mix(mix(seed, 0x6c6f6e6772756e), ref_num * 1000 + ref_den));
   let kinds: Vec<usize> = (0..KINDS.len()).filter(|k| KINDS[*k].name != "PROVIDER" && KINDS[*k].cost < 2).collect();
   let mut queries: Vec<Query> = Vec::with_capacity(n);
   let mut per_family = [0u64; 10];
@@ -714,6 +725,19 @@ pub fn longrun(args: &[String]) -> i32 {
     let invalid = rng.chance(1, 24);
     let t = crate::gen::gen_tuple(&mut rng, 4, &leap, invalid);
     let o = crate::gen::gen_tuple(&mut rng, 4, &leap, false);
+    if ref_num > 0 && rng.chance(ref_num, ref_den) {
+      // a request built to be refused
+      let q = if rng.chance(1, 6) {
+        crate::gen::provider_fault(&mut rng).0
+      } else {
+        let (ct, class) = crate::gen::corrupt(&mut rng, t, &leap);
+        let fk = crate::gen::fault_kind(&mut rng, class);
+        Query::new(fk, crate::gen::args_for(&mut rng, fk, ct, o))
+      };
+      per_family[KINDS[q.kind].family] += 1;
+      queries.push(q);
+      continue;
+    }
     per_family[KINDS[k].family] += 1;
     queries.push(Query::new(k, crate::gen::args_for(&mut rng, k, t, o)));
   }
@@ -812,7 +836,7 @@ pub fn longrun(args: &[String]) -> i32 {
   let fams: Vec<String> = (0..10).map(|f| format!("\"{}\":{}", FAMILIES[f], per_family[f])).collect();
   let (clen, _, _, _, _) = if violations.is_empty() { let x = lunar_state_hash(); (x.1, x.2, x.3, x.4, false) } else { (0, false, false, false, false) };
   let mut o = String::new();
-  let _ = write!(o, "{{\"mode\":\"longrun\",\"seed\":{},\"index\":{},\"threads\":{},\"n\":{},\"evaluations\":{},\"refused\":{},\"month_memo_entries_after\":{},\"queries_per_family\":{{{}}},\"wall_s\":{:.3},\"violations\":[{}]}}\n", seed, index, nthreads, n, evaluations, refused, clen, fams.join(","), t0.elapsed().as_secs_f64(), violations.join(","));
+  let _ = write!(o, "{{\"mode\":\"longrun\",\"seed\":{},\"index\":{},\"refusals\":\"{}/{}\",\"threads\":{},\"n\":{},\"evaluations\":{},\"refused\":{},\"month_memo_entries_after\":{},\"queries_per_family\":{{{}}},\"wall_s\":{:.3},\"violations\":[{}]}}\n", seed, index, ref_num, ref_den, nthreads, n, evaluations, refused, clen, fams.join(","), t0.elapsed().as_secs_f64(), violations.join(","));
   write_out(out, &o);
   0
 }
